@@ -40,15 +40,30 @@ pub fn run(args: &crate::Args) {
         let mut ructe = ructe::Ructe::new(root.join("out")).unwrap();
         {
             let mut st = ructe.statics().unwrap();
+            // the name each member is referenced by: the file name for the hashed entry points, the
+            // URL name for add_file_as
+            let mut refs: Vec<String> = Vec::new();
             for (i, m) in members.iter().enumerate() {
                 let content = format!("content of {m} #{i} {}", r.next());
-                if i % 2 == 0 {
-                    std::fs::write(root.join("in/static").join(m), &content).unwrap();
-                    st.add_file(format!("static/{m}")).unwrap();
-                } else {
-                    st.add_file_data(format!("gen/{m}"), content.as_bytes()).unwrap();
+                match i % 3 {
+                    0 => {
+                        std::fs::write(root.join("in/static").join(m), &content).unwrap();
+                        st.add_file(format!("static/{m}")).unwrap();
+                        refs.push(m.to_string());
+                    }
+                    1 => {
+                        st.add_file_data(format!("gen/{m}"), content.as_bytes()).unwrap();
+                        refs.push(m.to_string());
+                    }
+                    _ => {
+                        std::fs::write(root.join("in/static").join(m), &content).unwrap();
+                        let url = format!("to/{m}");
+                        st.add_file_as(format!("static/{m}"), &url).unwrap();
+                        refs.push(url);
+                    }
                 }
             }
+            let members: Vec<&str> = refs.iter().map(|s| s.as_str()).collect();
             // queries: every member, and a few non-members
             let mut queries: Vec<String> = members.iter().map(|s| s.to_string()).collect();
             for _ in 0..2 {
